@@ -210,6 +210,14 @@ func c01Jobs(tier string) []Job {
 			}
 		}
 	}
+	// (d) an EXPIRED, unswept entry of key 1 (colliding hashes): the lookup's expiry path races a
+	// Del of the key, a Del followed by a Set of the colliding key, and rewrites of the key
+	collT := coll
+	collT.TTLTick, collT.BucketSecs = 2, 1
+	expired := []Op{{K: "setttl", Key: 1, Cost: 1, TTL: 1000}, {K: "wait"}, {K: "advance", N: 3000}}
+	for i, w := range [][]Op{{del(1), set(2)}, {del(1)}, {set(1)}, {setttl(1), del(1)}, {set(2), del(1)}} {
+		add(fmt.Sprintf("d/expired-unswept/%d", i), collT, expired, w, []Op{get(1), get(1)}, bound)
+	}
 	// (c) other key types with the default hash
 	for _, kt := range []string{"string", "bytes", "uint64", "longstring-tail", "longstring-head", "longbytes-tail"} {
 		c := small
